@@ -391,3 +391,53 @@ def names_in(src):
 
 def cleanup(d):
     shutil.rmtree(d, ignore_errors=True)
+
+
+def bound_names(src):
+    """names bound in the top-level scope of a piece of code (CPython's own rules via symtable): assignment targets,
+    def / class names, import aliases, for / with / except targets, walrus"""
+    import symtable
+    try:
+        t = symtable.symtable(src, "<guest>", "exec")
+    except SyntaxError:
+        return None
+    return sorted(sym.get_name() for sym in t.get_symbols() if sym.is_assigned() or sym.is_imported() or sym.is_namespace())
+
+
+def host_scope_names(src, lineno):
+    """names defined in the scope that contains line `lineno` (module, or the innermost function/class), by CPython's
+    symtable: what rope's scope.get_names() is expected to list for the call site"""
+    import symtable
+    top = symtable.symtable(src, "<host>", "exec")
+    tree = ast.parse(src)
+    path = []
+
+    def find(node, acc):
+        for ch in ast.iter_child_nodes(node):
+            if isinstance(ch, (ast.FunctionDef, ast.ClassDef, ast.AsyncFunctionDef)):
+                if ch.lineno <= lineno <= ch.end_lineno and not any(lineno <= d.end_lineno for d in ch.decorator_list):
+                    # inside the body (the header line itself belongs to the enclosing scope for our purposes)
+                    if lineno > ch.lineno:
+                        acc.append(ch)
+                        find(ch, acc)
+                        return
+            else:
+                find(ch, acc)
+    find(tree, path)
+    table = top
+    for node in path:
+        cands = [c for c in table.get_children() if c.get_name() == node.name and c.get_lineno() == node.lineno]
+        if not cands:
+            return None
+        table = cands[0]
+    out = []
+    for sym in table.get_symbols():
+        if table.get_type() == "module":
+            if sym.is_assigned() or sym.is_imported() or sym.is_namespace():
+                out.append(sym.get_name())
+        elif sym.is_local() or sym.is_parameter():
+            out.append(sym.get_name())
+    if table.get_type() == "module":
+        import builtins
+        out = set(out) | (set(dir(builtins)) - {'None'})      # rope's module scope lists the builtins too
+    return sorted(out)
